@@ -6,10 +6,14 @@
 package grpcv3
 
 // C01 (Envoy ext-auth): an OK response is built only when no pipeline error is recorded.
+// C12: a WWW-Authenticate challenge recorded by the www_authenticate error handler has to reach the
+// client with the denial; here the pipeline error alone is returned (the interceptor builds the denied
+// response from it), so a recorded challenge is lost whenever one is present
 //@ func (*RequestContext).Finalize
-//@   props C01
+//@   props C01 C12
 //@   ensures old(r.err) != nil ==> ret0 == nil && ret1 == old(r.err)
 //@   ensures old(r.err) == nil ==> ret1 == nil && ret0 != nil
+//@   ensures old(r.err) != nil ==> headerGet(old(r.upstreamHeaders), "WWW-Authenticate", old(hver)) == "" || ret0 != nil
 
 //@ func (*Handler).Check
 //@   props C01
